@@ -200,7 +200,9 @@ CHECKS = {
              'that it happened. z3 shows: a file one of whose operations failed is never renamed to its final name; an accepted sample that '
              'does not end up in an intact published file is reported no later than the first call after the failure; after has_failure the '
              'writer refuses further writes; files finalized before the fault are not touched. The real build is then run under an '
-             'LD_PRELOAD fault injector (write / rename / mkdir failing at each of 17 positions incl. the final flush, once or persistently) to validate the model.',
+             'LD_PRELOAD fault injector (write / rename / mkdir failing at each of 17 positions incl. the final flush, once or persistently; small recordings that stay in '
+             'the HDF5 caches and large ones whose H5Dwrite reaches the OS directly) to validate the model. The same schedules are run from ANY writer state satisfying '
+             'the representation invariant Inv_W (2 calls + close), so the fault may strike during call k of a history of any length.',
         note='Trusted: z3, IR executor, stubs; an OS failure surfaces as the failure of some HDF5/libc call of the writer. Histories: 2 calls '
              '(thorough 3) + close, <= 2 files per call.',
         technique='symbolic execution of LLVM IR to SMT (z3) with symbolic fault schedules + fault-injection replay on the real build',
